@@ -85,37 +85,78 @@ Definition to_strict (o : bop) : bop :=
 Definition to_unstrict (o : bop) : bop :=
   match o with B_gt => B_ge | B_lt => B_le | B_sgt => B_sge | B_slt => B_sle | o => o end.
 
-Definition comparison_helper (o0 : bop) (x0 y0 : expr) (prefer_strict : bool) : res (option tmpl) :=
-  let '(o, y, tx, ty) := if is_int x0 then (flip_cmp o0, x0, TY, TX) else (o0, y0, TX, TY) in
+(* outcome of the helper, independent of which argument slot holds the literal *)
+Inductive cres :=
+| CLit (c : Z)                 (* (c, []) *)
+| CEqNever (nv : Z)            (* ("eq", [args[0], never]) *)
+| CEqArgs                      (* ("eq", args) *)
+| CNeArgs                      (* ("ne", args) *)
+| CNew (o : bop) (rhs : Z)     (* (new_op, [args[0], new_rhs]) *)
+| CIszIsz.                     (* ("iszero", [["iszero", args[0]]]) *)
+Definition cres_tmpl (r : cres) (tx ty : tmpl) : tmpl :=
+  match r with
+  | CLit c => TLit c
+  | CEqNever nv => TBin B_eq tx (TLit nv)
+  | CEqArgs => TBin B_eq tx ty
+  | CNeArgs => TBin B_ne tx ty
+  | CNew o rhs => TBin o tx (TLit rhs)
+  | CIszIsz => TUn U_iszero (TUn U_iszero tx)
+  end.
+
+(* the helper after the flip: o is the (possibly flipped) op, y its second argument *)
+Definition cmp_core (o : bop) (y : expr) (prefer_strict : bool) : res (option cres) :=
   let u := cmp_unsigned o in
   let st := cmp_strict o in
   let g := cmp_gt o in
   '(lo, hi) <- int_bounds (negb u) 256 ;;
   let '(aa, nv, an) := if g then (lo, hi, hi - 1) else (hi, lo, lo + 1) in
-  if st && int_is u y nv then Ok (Some (TLit 0)) else
-  if negb st && int_is u y aa then Ok (Some (TLit 1)) else
-  if st && int_is u y an then Ok (Some (TBin B_eq tx (TLit nv))) else
+  if st && int_is u y nv then Ok (Some (CLit 0)) else
+  if negb st && int_is u y aa then Ok (Some (CLit 1)) else
+  if st && int_is u y an then Ok (Some (CEqNever nv)) else
   let special :=
-    if bop_eqb o B_gt && int_is u y 0 then Some (TUn U_iszero (TUn U_iszero tx)) else None in
+    if bop_eqb o B_gt && int_is u y 0 then Some CIszIsz else None in
   match y with
   | Lit v =>
       if negb (Bool.eqb st prefer_strict) then
         let rhs := evm_int u v in
-        if prefer_strict && (rhs =? nv) then Ok (Some (TBin B_eq tx ty)) else
-        if negb prefer_strict && (rhs =? aa) then Ok (Some (TBin B_ne tx ty)) else
+        if prefer_strict && (rhs =? nv) then Ok (Some CEqArgs) else
+        if negb prefer_strict && (rhs =? aa) then Ok (Some CNeArgs) else
         let new_rhs := if Bool.eqb g st then rhs + 1 else rhs - 1 in
         w <- _wrap256 new_rhs u ;;
         if w =? new_rhs then
-          Ok (Some (TBin (if prefer_strict then to_strict o else to_unstrict o) tx (TLit new_rhs)))
+          Ok (Some (CNew (if prefer_strict then to_strict o else to_unstrict o) new_rhs))
         else Err AssertFail
       else Ok special
   | _ => Ok special
   end.
 
+Definition comparison_helper (o0 : bop) (x0 y0 : expr) (prefer_strict : bool) : res (option tmpl) :=
+  if is_int x0 then
+    r <- cmp_core (flip_cmp o0) x0 prefer_strict ;;
+    Ok (match r with Some r => Some (cres_tmpl r TY TX) | None => None end)
+  else
+    r <- cmp_core o0 y0 prefer_strict ;;
+    Ok (match r with Some r => Some (cres_tmpl r TX TY) | None => None end).
+
 (* ---- the rule cascade of _optimize_binop, after the literal x literal case and the
         commutative swap; u is the signedness flag of the op from the arith table ---- *)
-Definition rules (o : bop) (u : bool) (x y : expr) (pc : pctx) : res (option tmpl) :=
+Definition rules_cmp (o : bop) (x y : expr) (truthy : bool) : res (option tmpl) :=
+  if comparison o then comparison_helper o x y (negb truthy) else Ok None.
+
+Definition rules_tail (o : bop) (u : bool) (x y : expr) (pc : pctx) : res (option tmpl) :=
   let truthy := is_truthy pc in
+  if bop_eqb o B_eq && int_is u y 0 then Ok (Some (TUn U_iszero TX)) else
+  if bop_eqb o B_ne && int_is u y 0 then Ok (Some (TUn U_iszero (TUn U_iszero TX))) else
+  if bop_eqb o B_eq && int_is false y (-1) then Ok (Some (TUn U_iszero (TUn U_not TX))) else
+  if truthy then
+    if bop_eqb o B_eq then (if u then Ok (Some (TUn U_iszero (TBin B_xor TX TY))) else Err AssertFail) else
+    if bop_eqb o B_ne && (match pc with PIszero => true | _ => false end) then
+      Ok (Some (TUn U_iszero (TBin B_eq TX TY))) else
+    if bop_eqb o B_or && is_int y && negb (int_is u y 0) then Ok (Some (TLit 1)) else
+    rules_cmp o x y truthy
+  else rules_cmp o x y truthy.
+
+Definition rules (o : bop) (u : bool) (x y : expr) (pc : pctx) : res (option tmpl) :=
   if memb o [B_add; B_sub; B_xor; B_or] && int_is u y 0 then Ok (Some (TSeq1 TX)) else
   if memb o [B_sub; B_xor; B_ne] && ceq x y then Ok (Some (TLit 0)) else
   if strict_comparison o && ceq x y then Ok (Some (TLit 0)) else
@@ -136,18 +177,6 @@ Definition rules (o : bop) (u : bool) (x y : expr) (pc : pctx) : res (option tmp
   if bop_eqb o B_exp && (int_is u y 0 || int_is u x 1) then Ok (Some (TLit 1)) else
   if bop_eqb o B_exp && int_is u x 0 then Ok (Some (TUn U_iszero TY)) else
   if bop_eqb o B_exp && int_is u y 1 then Ok (Some (TSeq1 TX)) else
-  let nopow :=
-    if bop_eqb o B_eq && int_is u y 0 then Ok (Some (TUn U_iszero TX)) else
-    if bop_eqb o B_ne && int_is u y 0 then Ok (Some (TUn U_iszero (TUn U_iszero TX))) else
-    if bop_eqb o B_eq && int_is false y (-1) then Ok (Some (TUn U_iszero (TUn U_not TX))) else
-    let rest :=
-      if comparison o then comparison_helper o x y (negb truthy) else Ok None in
-    if truthy then
-      if bop_eqb o B_eq then (if u then Ok (Some (TUn U_iszero (TBin B_xor TX TY))) else Err AssertFail) else
-      if bop_eqb o B_ne && (match pc with PIszero => true | _ => false end) then
-        Ok (Some (TUn U_iszero (TBin B_eq TX TY))) else
-      if bop_eqb o B_or && is_int y && negb (int_is u y 0) then Ok (Some (TLit 1)) else rest
-    else rest in
   match y with
   | Lit v =>
       if memb o [B_mod; B_div; B_mul] && pow2b (evm_int u v) then
@@ -158,8 +187,8 @@ Definition rules (o : bop) (u : bool) (x y : expr) (pc : pctx) : res (option tmp
          | B_mul => Ok (Some (TBin B_shl (TLit (ilog2 (evm_int u v))) TX))
          | _ => Err Raised
          end)
-      else nopow
-  | _ => nopow
+      else rules_tail o u x y pc
+  | _ => rules_tail o u x y pc
   end.
 
 (* compile-time arithmetic: _wrap(fn(_int(l), _int(r))) *)
